@@ -788,14 +788,14 @@ pub fn worker_c15(ctx: &WorkerCtx) -> WorkerOut {
     let total2 = total1 + corp.len();
     // integration reporting / trigger delays on the client, the server or both, with every length bound from 0 (none) to 9:
     // only the time order of what is returned is judged
-    let nint = if q { n / 401 } else { n / 41 };
+    let nint = if q { n / 401 } else { n / 201 };
     let rds: [(u64, u64); 4] = [(3, 0), (0, 3), (3, 1), (1000, 1000)];
     let build = |i: usize| -> Option<SimSys> {
         if i < total2 {
             return build(i);
         }
         let k = i - total2;
-        let j = pr.job((k / 20) * (if q { 401 } else { 41 }) % n);
+        let j = pr.job((k / 20) * (if q { 401 } else { 201 }) % n);
         if sp.traces[j.trace as usize].len() < 2 {
             return None;
         }
